@@ -264,7 +264,7 @@ func main() {
 
 	// ---------------- random single cases
 	prefPool := []byte{0x4b, 0x4b, 0x21, 0x12, 0x1f, 0x3f, 0x67, 0x00, 0x4a, 0x4c}
-	for i := 0; i < run.N(1000, 40000); i++ {
+	for i := 0; i < run.N(1000, 15000); i++ {
 		tt := byte(rng.U64())
 		if rng.Chance(60) {
 			tt = byte(rng.PickU64(7, 0x51, 2, 8, 0x50, 0x52, 6))
